@@ -179,10 +179,10 @@ def run(ctx):
     h = ctx.build_harness('c10_place', 'c10_place.cpp')
     rng = random.Random(ctx.seed)
     if ctx.tier == 'quick':
-        ncases, njobs = 28, 24
+        ncases, njobs = 48, 24
         scen = [('e6', 2500), ('e6', 2500), ('yieldto', 100), ('yieldto', 100), ('yieldto', 100), ('boost', 12), ('sphint', 3)]
     else:
-        ncases, njobs = 260, 40
+        ncases, njobs = 800, 40
         scen = [('e6', 3000), ('yieldto', 100), ('boost', 24)] * 4 + [('sphint', 3)]
     cases = [('rand', njobs)] * ncases + scen
     base = rng.randrange(1, 1 << 30)
